@@ -14,8 +14,8 @@
 EXTENDS ObjModel, Json, IOUtils, SequencesExt
 
 Recs == ndJsonDeserialize(IOEnv.OBS_FILE)       \* [id, dv, h, steps : Seq([out, obs]), cut]
-VARIABLES t_rec, t_l, t_dev, t_alt, t_mis, t_cnt, t_status
-t_vars == <<t_rec, t_l, t_dev, t_alt, t_mis, t_cnt, t_status>>
+VARIABLES t_rec, t_l, t_dev, t_alt, t_mis, t_cnt, t_status, t_anti
+t_vars == <<t_rec, t_l, t_dev, t_alt, t_mis, t_cnt, t_status, t_anti>>
 SeqSet(sq) == {sq[j] : j \in 1..Len(sq)}
 DvOf(r) == SeqSet(r.dv)
 
@@ -31,8 +31,13 @@ ObsVerdict(sr, sd, alt, dv, ob, act) ==
   IF SameObs(sr, {}, ob, Observe(sr, {}, ob), act) THEN <<"pass", "">>
   ELSE IF Explains(sd, dv, ob, act)
        THEN LET need == {d \in dv : ~Explains(alt[d], dv \ {d}, ob, act)}      \* deviations the explanation cannot do without
-            IN <<"known", IF need # {} THEN AnyOf(need) ELSE AnyOf(dv)>>
+            IN <<"known", IF need # {} THEN AnyOf(need) ELSE "?" \o AnyOf(dv)>>     \* "?": no single deviation is necessary
   ELSE <<"violation", "">>
+\* calibration (records with cal = TRUE): the engine followed the reference where the as-is model predicts
+\* otherwise - the deviations whose removal makes the as-is model agree are evidence of a repaired defect
+ObsAnti(sr, sd, alt, dv, ob, act) ==
+  IF SameObs(sr, {}, ob, Observe(sr, {}, ob), act) /\ ~Explains(sd, dv, ob, act)
+  THEN {d \in dv : Explains(alt[d], dv \ {d}, ob, act)} ELSE {}
 
 \* the record is copied into the state: Recs is a Java-backed operator that TLC re-evaluates at every use
 TInit == /\ LET all == Recs IN t_rec \in {all[j] : j \in 1..Len(all)}
@@ -43,6 +48,7 @@ TInit == /\ LET all == Recs IN t_rec \in {all[j] : j \in 1..Len(all)}
          /\ t_mis = <<>>
          /\ t_cnt = [steps |-> 0, obs |-> 0, known |-> 0, viol |-> 0]
          /\ t_status = "run"
+         /\ t_anti = {}
 
 MisRec(l, j, v, ob, exp, act) == [l |-> l, j |-> j, v |-> v[1], dev |-> v[2], ob |-> ob, exp |-> exp, act |-> act]
 NoOb == Ob("step", "", "", "")
@@ -56,7 +62,7 @@ TStep ==
       o == rec.h[t_l]
       a == rec.steps[t_l]
   IN IF ~Applicable(m_st, o, t_l)
-     THEN /\ t_status' = "inapplicable" /\ UNCHANGED <<t_rec, t_l, t_dev, t_alt, t_mis, t_cnt, m_vars>>
+     THEN /\ t_status' = "inapplicable" /\ UNCHANGED <<t_rec, t_l, t_dev, t_alt, t_mis, t_cnt, t_anti, m_vars>>
      ELSE
        LET rr == Step(m_st, {}, o)
            rd == DevStep(t_dev, dv, o)
@@ -64,8 +70,9 @@ TStep ==
            sv == IF a.out = OutStr(rr.out) THEN <<"pass", "">>
                  ELSE IF a.out = OutStr(rd.out)
                       THEN LET need == {d \in dv : a.out # OutStr(ra[d].out)}
-                           IN <<"known", IF need # {} THEN AnyOf(need) ELSE AnyOf(dv)>>
+                           IN <<"known", IF need # {} THEN AnyOf(need) ELSE "?" \o AnyOf(dv)>>
                  ELSE <<"violation", "">>
+           anti_s == IF a.out = OutStr(rr.out) /\ a.out # OutStr(rd.out) THEN {d \in dv : OutStr(ra[d].out) = a.out} ELSE {}
            \* adopt: when the engine threw although neither model does, the step had no effect
            noeff == sv[1] = "violation" /\ a.out # "ok"
            nr == IF noeff THEN m_st ELSE rr.st
@@ -73,12 +80,14 @@ TStep ==
            na == [d \in dv |-> IF noeff THEN t_alt[d] ELSE ra[d].st]
            mis0 == IF sv[1] = "pass" THEN t_mis ELSE Keep(t_mis, MisRec(t_l, 0, sv, NoOb, <<OutStr(rr.out)>>, <<a.out>>))
            \* one pass over the recorded observations (FoldLeft is iterative; function-valued LETs are re-evaluated per use)
-           acc0 == [mis |-> mis0, nobs |-> 0, nk |-> 0, nv |-> 0]
+           acc0 == [mis |-> mis0, nobs |-> 0, nk |-> 0, nv |-> 0, anti |-> anti_s]
            res == FoldLeft(LAMBDA acc, j :
                      IF ~Observable(nr, Battery[j]) THEN acc
                      ELSE LET v == ObsVerdict(nr, nd, na, dv, Battery[j], a.obs[j])
-                          IN IF v[1] = "pass" THEN [acc EXCEPT !.nobs = acc.nobs + 1]
-                             ELSE [mis |-> Keep(acc.mis, MisRec(t_l, j, v, Battery[j], Observe(nr, {}, Battery[j]), a.obs[j])),
+                          IN IF v[1] = "pass"
+                             THEN [acc EXCEPT !.nobs = acc.nobs + 1,
+                                              !.anti = IF rec.cal THEN acc.anti \cup ObsAnti(nr, nd, na, dv, Battery[j], a.obs[j]) ELSE acc.anti]
+                             ELSE [anti |-> acc.anti, mis |-> Keep(acc.mis, MisRec(t_l, j, v, Battery[j], Observe(nr, {}, Battery[j]), a.obs[j])),
                                    nobs |-> acc.nobs + 1,
                                    nk |-> acc.nk + (IF v[1] = "known" THEN 1 ELSE 0),
                                    nv |-> acc.nv + (IF v[1] = "violation" THEN 1 ELSE 0)],
@@ -87,7 +96,7 @@ TStep ==
            nv == res.nv + (IF sv[1] = "violation" THEN 1 ELSE 0)
        IN /\ m_st' = nr /\ m_prev' = m_st /\ m_hist' = Append(m_hist, o)
           /\ t_dev' = nd /\ t_alt' = na
-          /\ t_mis' = res.mis
+          /\ t_mis' = res.mis /\ t_anti' = t_anti \cup res.anti
           /\ t_cnt' = [steps |-> t_cnt.steps + 1, obs |-> t_cnt.obs + res.nobs,
                        known |-> t_cnt.known + nk, viol |-> t_cnt.viol + nv]
           /\ t_l' = t_l + 1
@@ -96,9 +105,9 @@ TStep ==
 
 TNext == /\ t_status = "run"
          /\ IF t_l > Len(t_rec.steps)
-            THEN t_status' = "done" /\ UNCHANGED <<t_rec, t_l, t_dev, t_alt, t_mis, t_cnt, m_vars>>
+            THEN t_status' = "done" /\ UNCHANGED <<t_rec, t_l, t_dev, t_alt, t_mis, t_cnt, t_anti, m_vars>>
             ELSE TStep
 TReport == t_status = "run" \/
-           PrintT(ToJson([id |-> t_rec.id, status |-> t_status, at |-> t_l, cut |-> t_rec.cut, cnt |-> t_cnt, mis |-> t_mis]))
+           PrintT(ToJson([id |-> t_rec.id, status |-> t_status, at |-> t_l, cut |-> t_rec.cut, cnt |-> t_cnt, mis |-> t_mis, anti |-> t_anti]))
 TInv == ModelInv /\ Frame
 =============================================================================
